@@ -144,28 +144,37 @@ func (c *callEngine) Call(ctx context.Context, params ...uint64) ([]uint64, erro
 	return paramResultSlice[:c.numberOfResults], nil
 }
 
-func (c *callEngine) addFrame(builder wasmdebug.ErrorBuilder, addr uintptr) (def api.FunctionDefinition, listener experimental.FunctionListener) {
-	eng := c.parent.parent.parent
-	cm := eng.compiledModuleOfAddr(addr)
-	if cm == nil {
-		// This case, the module might have been closed and deleted from the engine.
-		// We fall back to searching the imported modules that can be referenced from this callEngine.
+// compiledModuleOfAddr returns the compiled module whose code contains addr, or nil. The engine only
+// knows the compiled modules that have not been closed, but the code of a closed one keeps running in the
+// instances made from it: the modules reachable from this call engine through imports are searched too.
+func (c *callEngine) compiledModuleOfAddr(addr uintptr) *compiledModule {
+	if cm := c.parent.parent.parent.compiledModuleOfAddr(addr); cm != nil {
+		return cm
+	}
+	return liveCompiledModuleOfAddr(c.parent, addr, map[*moduleEngine]struct{}{})
+}
 
-		// First, we check itself.
-		if checkAddrInBytes(addr, c.parent.parent.executable) {
-			cm = c.parent.parent
-		} else {
-			// Otherwise, search all imported modules. TODO: maybe recursive, but not sure it's useful in practice.
-			p := c.parent
-			for i := range p.importedFunctions {
-				candidate := p.importedFunctions[i].me.parent
-				if checkAddrInBytes(addr, candidate.executable) {
-					cm = candidate
-					break
-				}
-			}
+func liveCompiledModuleOfAddr(me *moduleEngine, addr uintptr, seen map[*moduleEngine]struct{}) *compiledModule {
+	if me == nil {
+		return nil
+	}
+	if _, ok := seen[me]; ok {
+		return nil
+	}
+	seen[me] = struct{}{}
+	if checkAddrInBytes(addr, me.parent.executable) {
+		return me.parent
+	}
+	for i := range me.importedFunctions {
+		if cm := liveCompiledModuleOfAddr(me.importedFunctions[i].me, addr, seen); cm != nil {
+			return cm
 		}
 	}
+	return nil
+}
+
+func (c *callEngine) addFrame(builder wasmdebug.ErrorBuilder, addr uintptr) (def api.FunctionDefinition, listener experimental.FunctionListener) {
+	cm := c.compiledModuleOfAddr(addr)
 
 	if cm != nil {
 		index := cm.functionIndexOf(addr)
@@ -591,6 +600,7 @@ type stackIterator struct {
 	retAddrs      []uintptr
 	retAddrCursor int
 	eng           *engine
+	c             *callEngine
 	pc            uint64
 
 	currentDef *wasm.FunctionDefinition
@@ -606,6 +616,7 @@ func (si *stackIterator) reset(c *callEngine, onHostCall bool) {
 	si.retAddrs = si.retAddrs[:len(si.retAddrs)-1] // the last return addr is the trampoline, so we skip it.
 	si.retAddrCursor = 0
 	si.eng = c.parent.parent.parent
+	si.c = c
 }
 
 // Next implements the same method as documented on experimental.StackIterator.
@@ -615,7 +626,7 @@ func (si *stackIterator) Next() bool {
 	}
 
 	addr := si.retAddrs[si.retAddrCursor]
-	cm := si.eng.compiledModuleOfAddr(addr)
+	cm := si.c.compiledModuleOfAddr(addr)
 	if cm != nil {
 		index := cm.functionIndexOf(addr)
 		def := cm.module.FunctionDefinition(cm.module.ImportFunctionCount + index)
@@ -636,13 +647,13 @@ func (si *stackIterator) ProgramCounter() experimental.ProgramCounter {
 func (si *stackIterator) Function() experimental.InternalFunction {
 	// Not the iterator itself: the returned function must keep describing this frame after the next call
 	// of Next (experimental.MultiFunctionListenerFactory collects the functions of all the frames first).
-	return internalFunction{def: si.currentDef, eng: si.eng}
+	return internalFunction{def: si.currentDef, c: si.c}
 }
 
 // internalFunction implements experimental.InternalFunction for one frame of a stackIterator.
 type internalFunction struct {
 	def api.FunctionDefinition
-	eng *engine
+	c   *callEngine
 }
 
 // Definition implements the same method as documented on experimental.InternalFunction.
@@ -653,7 +664,10 @@ func (f internalFunction) Definition() api.FunctionDefinition {
 // SourceOffsetForPC implements the same method as documented on experimental.InternalFunction.
 func (f internalFunction) SourceOffsetForPC(pc experimental.ProgramCounter) uint64 {
 	upc := uintptr(pc)
-	cm := f.eng.compiledModuleOfAddr(upc)
+	cm := f.c.compiledModuleOfAddr(upc)
+	if cm == nil {
+		return 0
+	}
 	return cm.getSourceOffset(upc)
 }
 
@@ -665,7 +679,10 @@ func (si *stackIterator) Definition() api.FunctionDefinition {
 // SourceOffsetForPC implements the same method as documented on experimental.InternalFunction.
 func (si *stackIterator) SourceOffsetForPC(pc experimental.ProgramCounter) uint64 {
 	upc := uintptr(pc)
-	cm := si.eng.compiledModuleOfAddr(upc)
+	cm := si.c.compiledModuleOfAddr(upc)
+	if cm == nil {
+		return 0
+	}
 	return cm.getSourceOffset(upc)
 }
 
